@@ -399,7 +399,7 @@ func c09psRequest(e common.Env, p *common.Part, n, t, L int, rng *mrand.Rand) {
 		p.Inconcl("the externally built honest request was not accepted under any challenge variant: adaptive forgeries skipped")
 	} else {
 		p.Count("external_prover_selfchecks", 1)
-		for _, fg := range []string{"plant-b", "plant-a", "solve-d", "solve-f", "solve-s"} {
+		for _, fg := range []string{"plant-b", "plant-a", "solve-d", "solve-f", "solve-s", "shift-pair"} {
 			for j := 0; j <= L; j++ {
 				req, ok := externalRequest(L, rng, fg, j, variant)
 				if !ok {
